@@ -500,7 +500,9 @@ fn probe_repair_every_prefix_of_a_small_archive() {
         w.finalize().unwrap();
         let bytes = w.into_raw();
         for cut in 0..=bytes.len() {
-            for unauth in [false, true] {
+            for (unauth, prefilled) in [(false, false), (true, false), (false, true)] {
+                // (third variant: the destination already holds a finished file, so output ids differ from the ids read in the source)
+                if prefilled && !layers.is_empty() { continue; }
                 let mut rc = ArchiveReaderConfig::new();
                 if layers.contains(Layers::ENCRYPT) { rc.add_private_keys(&[pkeys().0]); }
                 if unauth { rc.failsafe_return_data_even_unauthenticated(); }
@@ -508,7 +510,8 @@ fn probe_repair_every_prefix_of_a_small_archive() {
                 let mut oc = ArchiveWriterConfig::new();
                 oc.set_layers(Layers::EMPTY);
                 let mut ow = ArchiveWriter::from_config(Vec::new(), oc).unwrap();
-                let status = fs.convert_to_archive(&mut ow).unwrap_or_else(|e| panic!("layers {layers:?}, prefix of {cut} bytes, unauth {unauth}: repair fails with {e:?}"));
+                if prefilled { ow.add_file("already-there", 3, &b"xyz"[..]).unwrap(); }
+                let status = fs.convert_to_archive(&mut ow).unwrap_or_else(|e| panic!("layers {layers:?}, prefix of {cut} bytes, unauth {unauth}, destination already holding a file: {prefilled}: repair fails with {e:?}"));
                 if cut == bytes.len() {
                     assert!(matches!(status, FailSafeReadError::EndOfOriginalArchiveData), "layers {layers:?}: complete archive, repair stopped with {status:?}");
                 }
@@ -516,10 +519,11 @@ fn probe_repair_every_prefix_of_a_small_archive() {
                 let mut r = ArchiveReader::new(Cursor::new(out)).unwrap_or_else(|e| panic!("layers {layers:?}, prefix of {cut} bytes, unauth {unauth}: the repaired archive does not open: {e:?}"));
                 let names: Vec<String> = r.list_files().unwrap().cloned().collect();
                 for n in names {
-                    let orig: &[u8] = match n.as_str() { "a" => &fa, "b" => &fb, other => panic!("layers {layers:?}, prefix {cut}: repaired archive invents the name {other:?}") };
+                    let orig: &[u8] = match n.as_str() { "a" => &fa, "b" => &fb, "already-there" if prefilled => b"xyz", other => panic!("layers {layers:?}, prefix {cut}: repaired archive invents the name {other:?}") };
                     let mut got = Vec::new();
                     r.get_file(n.clone()).unwrap().unwrap().data.read_to_end(&mut got).unwrap_or_else(|e| panic!("layers {layers:?}, prefix {cut}: reading repaired {n} fails: {e:?}"));
                     assert!(got.len() <= orig.len() && got[..] == orig[..got.len()], "layers {layers:?}, prefix of {cut} bytes, unauth {unauth}: repaired {n} is not a prefix of the original");
+                    if n == "already-there" { assert!(got == b"xyz", "prefix of {cut} bytes: the file the destination already held was altered by the repair"); }
                     if cut == bytes.len() { assert!(got.len() == orig.len(), "layers {layers:?}: complete archive, repaired {n} is shorter than the original"); }
                 }
             }
@@ -547,8 +551,9 @@ fn probe_repair_block_of_exactly_the_copy_buffer_size() {
     }
 }
 
-/// C13/C06/C01: the SOURCE of a file's content may return fewer bytes than asked (pipe, socket, another archive's reader): the
-/// file stored, its recorded size and its stored SHA-256 are those of the content, for every layer combination
+/// C13/C06/C01/C14: the SOURCE of a file's content may return fewer bytes than asked (pipe, socket, another archive's reader) and
+/// may hold more bytes than the size announced: the file stored, its recorded size and its stored SHA-256 are those of the
+/// announced bytes, for every layer combination
 #[test]
 fn probe_file_source_split_schedules() {
     use sha2::{Digest, Sha256};
@@ -560,7 +565,8 @@ fn probe_file_source_split_schedules() {
             c.set_layers(layers);
             if layers.contains(Layers::ENCRYPT) { c.add_public_keys(&[pkeys().1]); }
             let mut w = ArchiveWriter::from_config(Vec::new(), c).unwrap();
-            w.add_file("first", 50_000, Trickle { c: Cursor::new(content[..50_000].to_vec()), k }).unwrap();
+            // (the source of "first" holds MORE than the 50 000 bytes announced: only those belong to the file and to its hash)
+            w.add_file("first", 50_000, Trickle { c: Cursor::new(content[..50_100].to_vec()), k }).unwrap();
             let id = w.start_file("second").unwrap();
             w.append_file_content(id, 60_000, Trickle { c: Cursor::new(content[..60_000].to_vec()), k }).unwrap();
             w.append_file_content(id, 90_000, Trickle { c: Cursor::new(content[60_000..].to_vec()), k }).unwrap();
@@ -579,6 +585,73 @@ fn probe_file_source_split_schedules() {
                 let h = r.get_hash(name).unwrap().unwrap();
                 assert!(h[..] == Sha256::digest(want)[..], "layers {layers:?}, source returning {k} bytes per read: the stored hash of {name} is not the SHA-256 of its content");
             }
+        }
+    }
+}
+
+/// C10: opening files in any order and ANY NUMBER OF TIMES on one reader (names with multi-byte characters included), reading them
+/// fully or partly, abandoning them midway and asking for hashes in between gives, each time, what a fresh reader gives
+#[test]
+fn probe_reopening_files_gives_the_same_result_every_time() {
+    let names = ["plain.txt", "résumé.txt", "日本語のファイル名.bin", "dir/ünïcödé/ß"];
+    let contents: Vec<Vec<u8>> = (0..names.len()).map(|i| pnoise(20_000 + 7_001 * i, 40 + i as u32)).collect();
+    for layers in [Layers::EMPTY, Layers::COMPRESS, Layers::COMPRESS | Layers::ENCRYPT] {
+        let mut c = ArchiveWriterConfig::new();
+        c.set_layers(layers);
+        if layers.contains(Layers::ENCRYPT) { c.add_public_keys(&[pkeys().1]); }
+        let mut w = ArchiveWriter::from_config(Vec::new(), c).unwrap();
+        // interleaved: every file in two blocks
+        let ids: Vec<u64> = names.iter().map(|n| w.start_file(n).unwrap()).collect();
+        for (i, id) in ids.iter().enumerate() { w.append_file_content(*id, 5_000, &contents[i][..5_000]).unwrap(); }
+        for (i, id) in ids.iter().enumerate().rev() { w.append_file_content(*id, (contents[i].len() - 5_000) as u64, &contents[i][5_000..]).unwrap(); }
+        for id in &ids { w.end_file(*id).unwrap(); }
+        w.finalize().unwrap();
+        let bytes = w.into_raw();
+        let open = || {
+            let mut rc = ArchiveReaderConfig::new();
+            if layers.contains(Layers::ENCRYPT) { rc.add_private_keys(&[pkeys().0]); }
+            ArchiveReader::from_config(Cursor::new(bytes.clone()), rc).expect("archive opens")
+        };
+        // reference: each file alone on a fresh reader
+        let mut reference = Vec::new();
+        for n in names {
+            let mut r = open();
+            let mut f = r.get_file(n.to_string()).unwrap().unwrap();
+            let mut v = Vec::new();
+            f.data.read_to_end(&mut v).unwrap();
+            let size = f.size;
+            drop(f);
+            reference.push((v, size, r.get_hash(n).unwrap().unwrap()));
+        }
+        for (i, _) in names.iter().enumerate() { assert!(reference[i].0 == contents[i], "layers {layers:?}: fresh read of {:?} differs from what was written", names[i]); }
+        // one reader, many openings
+        let mut r = open();
+        let order = [1usize, 1, 2, 0, 3, 2, 2, 1, 3, 0, 0, 3, 1];
+        for (turn, &i) in order.iter().enumerate() {
+            let what = format!("layers {layers:?}, opening #{turn} (file {:?})", names[i]);
+            let mut f = r.get_file(names[i].to_string()).unwrap_or_else(|e| panic!("{what}: get_file fails: {e:?}")).expect("listed file");
+            assert_eq!(f.size, reference[i].1, "{what}: size differs from a fresh reader's");
+            match turn % 3 {
+                0 => { // full read
+                    let mut v = Vec::new();
+                    f.data.read_to_end(&mut v).unwrap_or_else(|e| panic!("{what}: read error: {e}"));
+                    assert!(v == reference[i].0, "{what}: bytes differ from a fresh reader's");
+                }
+                1 => { // partial read, then abandon
+                    let mut v = vec![0u8; 6_001];
+                    f.data.read_exact(&mut v).unwrap_or_else(|e| panic!("{what}: read error: {e}"));
+                    assert!(v[..] == reference[i].0[..6_001], "{what}: first bytes differ from a fresh reader's");
+                }
+                _ => { // small buffers
+                    let mut v = Vec::new();
+                    let mut b = [0u8; 333];
+                    loop { let n = f.data.read(&mut b).unwrap_or_else(|e| panic!("{what}: read error: {e}")); if n == 0 { break; } v.extend_from_slice(&b[..n]); }
+                    assert!(v == reference[i].0, "{what}: bytes differ from a fresh reader's (333-byte reads)");
+                }
+            }
+            drop(f);
+            let h = r.get_hash(names[(i + 1) % names.len()]).unwrap().unwrap();
+            assert!(h == reference[(i + 1) % names.len()].2, "{what}: hash asked afterwards differs from a fresh reader's");
         }
     }
 }
